@@ -144,8 +144,17 @@ def block_class(layout, ds_events, col, eid):
 
 # ----------------------------------------------------------------------------- engine
 
-def run_layout(binary, layout, events, queries, t0):
-    """-> {(text, lo, hi): sorted ids | 'ERR:...'}; raises DriverDead"""
+def run_layout(binary, layout, events, queries, t0, chunk=2500):
+    """-> {(text, lo, hi): sorted ids | 'ERR:...'}; raises DriverDead.  One server life answers at most `chunk` queries
+    (the dataset is re-ingested with the same layout for the next chunk)."""
+    out = {}
+    queries = list(queries)
+    for i in range(0, max(len(queries), 1), chunk):
+        out.update(run_layout1(binary, layout, events, queries[i:i + chunk], t0))
+    return out
+
+
+def run_layout1(binary, layout, events, queries, t0):
     d = vlib.scratch("c02")
     dr = None
     try:
